@@ -124,7 +124,8 @@ def print_assumptions(prop_file):
         if b.startswith("Closed"):
             res[nm] = []
         else:
-            res[nm] = re.findall(r"^([A-Za-z_][\w.']*)\s*:", b, flags=re.M)
+            body = b.split("\n", 1)[1] if "\n" in b else ""   # drop the "Axioms:" header line
+            res[nm] = re.findall(r"^([A-Za-z_][\w.']*)\s*:", body, flags=re.M)
     return res, out
 
 
